@@ -8,7 +8,7 @@ use hifitime::{Epoch, TimeScale};
 
 pub fn meta() -> Meta {
     Meta {
-        rule: "events = e+d, e-d, +=, -=, e+/-Unit, e+/-=Unit, e+f64 (integer seconds, |x|*1e9 < 2^53), the identities (e+d)-e==d, (e+d)-d==e, e+(f-e)==f for same-scale pairs, and cross-scale f-e for all 81 scale pairs. Expected: scale preserved; parts == canonical(clamp(E +/- D)); cross-scale difference == f.duration - reading of e's instant in f's scale by M-SCALE (exact for uniform scales and UTC, +-30 ns when ET/TDB is involved; instants with no UTC pre-image are don't-care). Generation: reading lattice x duration lattice restricted so that no bound is hit, stratified random readings (year 1..9999 and beyond) and durations of either sign, all nine scales, across century boundaries and across each leap second for UTC. Non-trivial = negative reading, negative duration, result crosses a century boundary or zero, cross-scale pair, UTC operand within 40 s of a leap second; distinct = distinct (reading, scale, duration) hashes among those. Rounds 7-9: each direction judged when its own exact result is representable, bounds included; the bounds and their neighbours as readings x duration lattice x whole centuries; differences whose right operand lies in the first / last three centuries of the range for all 81 scale pairs (judged when reading, TAI pivot and re-expression are representable); Unit steps from the first and last two centuries.",
+        rule: "events = e+d, e-d, +=, -=, e+/-Unit, e+/-=Unit, e+f64 (integer seconds, |x|*1e9 < 2^53), the identities (e+d)-e==d, (e+d)-d==e, e+(f-e)==f for same-scale pairs, and cross-scale f-e for all 81 scale pairs. Expected: scale preserved; parts == canonical(clamp(E +/- D)); cross-scale difference == f.duration - reading of e's instant in f's scale by M-SCALE (exact for uniform scales and UTC, +-30 ns when ET/TDB is involved; instants with no UTC pre-image are don't-care). Generation: reading lattice x duration lattice restricted so that no bound is hit, stratified random readings (year 1..9999 and beyond) and durations of either sign, all nine scales, across century boundaries and across each leap second for UTC. Non-trivial = negative reading, negative duration, result crosses a century boundary or zero, cross-scale pair, UTC operand within 40 s of a leap second; distinct = distinct (reading, scale, duration) hashes among those. Rounds 7-9: each direction judged when its own exact result is representable, bounds included; the bounds and their neighbours as readings x duration lattice x whole centuries; differences whose right operand lies in the first / last three centuries of the range for all 81 scale pairs (judged when reading, TAI pivot and re-expression are representable); Unit steps from the first and last two centuries. Round 10: whole float seconds m x 2^k (m below 2^26) over the whole representable range and round decimal literals to 9e13 s.",
         assumptions: &["M-SCALE / M-LEAP / M-DYN models; 30 ns tolerance when ET/TDB is involved (statement of C07)"],
         mandatory: &["add/negative-reading", "add/negative-duration", "add/crosses-century", "diff/cross-scale-uniform", "diff/cross-scale-utc", "diff/cross-scale-dyn", "diff/near-leap-second", "addf64/integer-seconds", "addf64/beyond-i64-ns"],
         thorough_scale: 50,
